@@ -131,6 +131,15 @@ def solve_one(ob, scale=1):
         ("z3-5.1", ["z3-new", f"-T:{t1}"], t1),
         ("z3-4.8.12", ["/usr/bin/z3", f"-T:{t2}"], t2),
     ]
+    if scale > 1:
+        # second round (queries left open by the default configurations): nonlinear / quantified queries are sensitive
+        # to the search order, so a few cheap alternative configurations go first; any `unsat` is a proof
+        backends = [
+            ("z3-5.1[nra=false]", ["z3-new", "-T:10", "smt.arith.nl.nra=false"], 10),
+            ("z3-5.1[seed=2]", ["z3-new", "-T:10", "smt.random_seed=2"], 10),
+            ("z3-5.1[seed=5,grobner=false]", ["z3-new", "-T:10", "smt.random_seed=5", "smt.arith.nl.grobner=false"], 10),
+            ("z3-4.8.12[seed=3]", ["/usr/bin/z3", "-T:10", "smt.random_seed=3"], 10),
+        ] + backends
     if not _Z3ONLY.search(text):
         backends.append(("cvc5-1.0.3", ["/usr/bin/cvc5", f"--tlimit={t2 * 1000}"], t2))
     total = 0.0
